@@ -104,6 +104,9 @@ def workload(ctx, R, d, kinds, reps, n_create, n_var):
     """create / map / mutate / crossover with every requested representation under depth limit d"""
     if getattr(ctx, "hangs", 0) >= 4:
         return
+    allowed = ctx.b.spec.get("reps") if isinstance(ctx.b.spec, dict) else None
+    if allowed:
+        reps = [r for r in reps if r in allowed]
     try:
         _workload(ctx, R, d, kinds, reps, n_create, n_var)
     except TooManyHangs:
